@@ -79,6 +79,10 @@ pub fn run_space(ctx: &mut Ctx) {
         "C14" => c14::run(ctx),
         "C15" => c15::run(ctx),
         "C16" => c16::run(ctx),
+        "C17" => {
+            crate::history::run(ctx);
+            crate::sched::run(ctx);
+        }
         "C18" => crate::boundary::c18(ctx),
         "C19" => crate::boundary::python(ctx, "c19"),
         p => panic!("no space for {}", p),
@@ -121,6 +125,12 @@ pub fn meta(prop: &str, thorough: bool) -> Meta {
 
 /// Replay of records that are not plain (rule, data) cases. None = use the generic replay.
 pub fn replay_special(_prop: &str, rec: &Value) -> Option<i32> {
+    if rec["case"].get("history").is_some() {
+        return Some(crate::history::replay(rec));
+    }
+    if rec["case"].get("schedule").is_some() {
+        return Some(crate::sched::replay(rec));
+    }
     if rec["case"].get("argv").is_some() {
         return Some(crate::boundary::replay_cli(rec));
     }
